@@ -32,7 +32,7 @@ def narrowF (k : K) (v : Float) : Float :=
     defined; the statement of C03 excludes it ("whenever the value is representable").  The
     model marks such a result as unspecified instead of guessing: the correspondence check
     skips what depends on it. -/
-def unspecVal : Val := .other .invalid 4242
+def unspecVal : Val := .other .iface 4242
 
 def f2i (x : Float) : Option Int64 :=
   if x ≥ -9223372036854775808.0 && x < 9223372036854775808.0 then some x.toInt64 else none
